@@ -78,6 +78,15 @@ Section Compose.
     | _ => false
     end.
 
+  (* accumulateResources: the entries of a resources list in order; each entry's result is appended
+     (AppendAll / MergeAccumulator) with the collision check.  [f] is the recursive call. *)
+  Definition acc_list (f : tree -> res (list resource)) : list tree -> list resource -> res (list resource) :=
+    fix go (l : list tree) (acc : list resource) : res (list resource) :=
+      match l with
+      | [] => Ok acc
+      | e :: t' => do sub <- f e; do acc' <- append_all acc sub; go t' acc'
+      end.
+
   (* accumulateTarget of a directory / accumulateFile of a file.  The result of a directory is what
      accumulateDirectory merges into the parent (MergeAccumulator = AppendAll of the child's ResMap). *)
   Fixpoint accumulate (t : tree) : res (list resource) :=
@@ -85,11 +94,7 @@ Section Compose.
     | File docs => append_all [] (map load docs)          (* rFactory.FromFile builds a ResMap: same check *)
     | Dir ents p s =>
         if is_empty_kust (Dir ents p s) then Err else
-        do acc <- (fix go (l : list tree) (acc : list resource) : res (list resource) :=
-                     match l with
-                     | [] => Ok acc
-                     | e :: t' => do sub <- accumulate e; do acc' <- append_all acc sub; go t' acc'
-                     end) ents [];
+        do acc <- acc_list accumulate ents [];
         Ok (run_transformers p s acc)
     end.
 
